@@ -61,8 +61,11 @@ def c01_k1(E):
     history(E, 1, list(OPS), _lp, contexts=False)
 
 
+SUB1 = SUB + ["objective"]
+
+
 def c01_k2_sub(E):
-    history(E, 2, SUB, _lp, contexts=True, sym_coef=False)
+    history(E, 2, SUB1, _lp, contexts=True, sym_coef=False)
 
 
 def c01_k2_full(E):
@@ -70,7 +73,7 @@ def c01_k2_full(E):
 
 
 def c01_k3_sub(E):
-    history(E, 3, SUB, _lp, contexts=True, sym_coef=False)
+    history(E, 3, SUB1, _lp, contexts=True, sym_coef=False)
 
 
 HARNESSES = [
@@ -79,7 +82,7 @@ HARNESSES = [
       bounds="base model (4 reactions, 2 metabolites, 3 genes, 1 group), reaction R1 with symbolic coefficients in [1/4,4] and "
              "bounds in [-2000,2000]; every one of the %d operations x all its argument shapes, once" % len(OPS)),
     H("c01_k2_sub", c01_k2_sub, tiers=("quick",), quick=dict(max_paths=60000, time_budget=90), witness_every=50,
-      bounds="all pairs from the sub-alphabet %s + enter/exit; R1 with symbolic bounds (concrete coefficients)" % SUB),
+      bounds="all pairs from the sub-alphabet %s + enter/exit; R1 with symbolic bounds (concrete coefficients)" % SUB1),
     H("c01_k2_full", c01_k2_full, tiers=("thorough",), thorough=dict(max_paths=2000000, time_budget=450), witness_every=200,
       bounds="all pairs of the full alphabet + enter/exit; R1 with symbolic bounds"),
     H("c01_k3_sub", c01_k3_sub, tiers=("thorough",), thorough=dict(max_paths=2000000, time_budget=400), witness_every=200,
